@@ -189,3 +189,37 @@ func FreeLocalPort() (int, error) {
 	defer l.Close()
 	return l.Addr().(*net.TCPAddr).Port, nil
 }
+
+// StartTLSHandler is a conforming StartTLS handler: success response, then the
+// handshake on the request's connection.
+func StartTLSHandler(cfg *tls.Config) gldap.HandlerFunc {
+	return func(w *gldap.ResponseWriter, r *gldap.Request) {
+		res := r.NewExtendedResponse(gldap.WithResponseCode(gldap.ResultSuccess))
+		res.SetResponseName(gldap.ExtendedOperationStartTLS)
+		if err := w.Write(res); err != nil {
+			return
+		}
+		_ = r.StartTLS(cfg)
+	}
+}
+
+// Connect opens a client connection over the given transport: "plain", "tls"
+// (the server must have been started with TLS) or "starttls" (the mux must
+// route StartTLS to StartTLSHandler).
+func Connect(addr, transport string, clientCfg *tls.Config) (*Client, error) {
+	switch transport {
+	case "tls":
+		return DialTLS(addr, clientCfg)
+	case "starttls":
+		c, err := Dial(addr)
+		if err != nil {
+			return nil, err
+		}
+		if err := c.StartTLS(clientCfg, 2147483600); err != nil {
+			c.Close()
+			return nil, err
+		}
+		return c, nil
+	}
+	return Dial(addr)
+}
